@@ -51,6 +51,7 @@ type Entry struct {
 	Err     string   // error reply, if the command failed
 	InMulti bool     // (raw log) the request arrived inside an open MULTI
 	Tag     string   // CLIENT SETNAME of the connection
+	Node    int      // cluster node that executed it
 }
 
 type Action int
@@ -279,7 +280,13 @@ func (s *Server) serve(c *conn) {
 			return
 		}
 		if reply == nil {
-			reply = s.dispatch(c, name, args[1:])
+			if s.Cluster != nil && s.Cluster.Serialize {
+				s.Cluster.Big.Lock()
+				reply = s.dispatch(c, name, args[1:])
+				s.Cluster.Big.Unlock()
+			} else {
+				reply = s.dispatch(c, name, args[1:])
+			}
 		}
 		if s.AfterExec != nil && s.AfterExec(c.id, name, args[1:]) == CloseConn {
 			s.mu.Unlock()
@@ -315,6 +322,10 @@ func (s *Server) logEntry(c *conn, name string, args [][]byte, blk int, rep inte
 	e := Entry{Seq: len(s.Log) + 1, Conn: c.id, DB: c.db, Name: name, Args: args, Blk: blk, Tag: c.tag}
 	if er, ok := rep.(ErrRep); ok {
 		e.Err = string(er)
+	}
+	if s.Cluster != nil {
+		e.Seq = int(s.Cluster.ESeq.Add(1)) // cluster-wide execution order
+		e.Node = s.NodeID
 	}
 	s.Log = append(s.Log, e)
 }
